@@ -24,6 +24,10 @@ type Stats struct {
 	Steps              int64
 	Imprecise          int64
 	LazyForced         int64
+	FDSat              int64
+	FDUnsat            int64
+	FDCrossChecked     int64
+	FDMismatch         int64
 }
 
 // ---------------------------------------------------------------- undo log
@@ -130,12 +134,22 @@ func (i *interpreter) appendSlice(s, add []value) []value {
 // boundsCheck decides idx within [0,n) or panics like Go; returns the index
 // as a term of the width it came with.
 func (i *interpreter) boundsCheck(idx *smt.Term, t types.Type, n int) *smt.Term {
-	w := idx.W
-	var inRange *smt.Term
+	signed := false
 	if b := basicOf(t); b != nil && signedKind(b.Kind()) {
-		inRange = smt.And(smt.Bin(smt.OpSle, smt.Const(w, 0), idx), smt.Bin(smt.OpSlt, idx, smt.Const(w, uint64(n))))
+		signed = true
+	}
+	if idx.W < 64 {
+		if signed {
+			idx = smt.Sext(idx, 64)
+		} else {
+			idx = smt.Zext(idx, 64)
+		}
+	}
+	var inRange *smt.Term
+	if signed {
+		inRange = smt.And(smt.Bin(smt.OpSle, smt.Const(64, 0), idx), smt.Bin(smt.OpSlt, idx, smt.Const(64, uint64(n))))
 	} else {
-		inRange = smt.Bin(smt.OpUlt, idx, smt.Const(w, uint64(n)))
+		inRange = smt.Bin(smt.OpUlt, idx, smt.Const(64, uint64(n)))
 	}
 	if n == 0 || !i.path.decide(inRange) {
 		panic(runtimeError(fmt.Sprintf("index out of range [symbolic] with length %d", n)))
@@ -174,7 +188,7 @@ func (p *pathCtx) chooseIndex(n int) int {
 	p.i.stats.Decisions++
 	for k := 1; k < n; k++ {
 		p.i.stats.Forks++
-		p.i.push(WorkItem{Prefix: appendCopy(p.prefix, uint64(k)), Model: copyModel(p.model)})
+		p.i.push(WorkItem{Prefix: appendCopy(p.prefix, uint64(k)), Model: copyModel(p.model), fd: p.childFD(nil)})
 	}
 	p.prefix = append(p.prefix, 0)
 	p.pos++
